@@ -13,7 +13,7 @@ META = {
                     'tolerance 1e-9 x conditioning (sum |w_i| |x_i^m| + |mu_m|); coefficients in [-1,1]', 'exotic quadrature (Addons) outside the claim: no closed-form oracle', 'custom-tabulated rules outside this check', 'gauss-jacobi with alpha != beta: degree <= 13 (precision of the oracle)'],
 }
 
-JAC = {'gauss-gegenbauer': [(0.5, None), (2.0, None)], 'gauss-gegenbauer-odd': [(1.0, None)], 'gauss-jacobi': [(0.5, 1.5), (2.0, 1.0), (0.0, 0.0)], 'gauss-jacobi-odd': [(1.0, 0.5)],
+JAC = {'gauss-gegenbauer': [(0.5, None), (2.0, None)], 'gauss-gegenbauer-odd': [(1.0, None)], 'gauss-jacobi': [(0.5, 1.5), (2.0, 1.0), (0.0, 0.0), (0.5, -0.5), (-0.25, 0.25)], 'gauss-jacobi-odd': [(1.0, 0.5), (0.75, -0.75)],
        'gauss-laguerre': [(0.0, None), (1.5, None)], 'gauss-laguerre-odd': [(1.0, None)], 'gauss-hermite': [(0.0, None), (2.0, None)], 'gauss-hermite-odd': [(1.0, None)]}
 
 
@@ -29,6 +29,7 @@ def configs(tier):
                 jac_general = rule.startswith('gauss-jacobi') and a != b
                 add(spec('global', rule, 1, 1, 3 if fast else (3 if jac_general else (6 if rule == 'rleja-double4' else 5)), alpha=a, beta=b))
                 add(spec('global', rule, 2, 1, 2 if fast else 3, 'level', transform=(1 if rule in ('fejer2', 'gauss-chebyshev2', 'gauss-laguerre', 'gauss-jacobi') else 0), alpha=a, beta=b))
+        add(spec('global', 'gauss-jacobi', 1, 1, 3, alpha=0.5, beta=-0.5)); add(spec('global', 'gauss-jacobi', 2, 1, 2, alpha=-0.25, beta=0.25, transform=1)); add(spec('global', 'gauss-jacobi-odd', 1, 1, 2, alpha=0.75, beta=-0.75))   # beta = -alpha: symmetric-looking parameters, non-symmetric weight
         add(spec('global', 'gauss-legendre', 2, 1, 3, 'qptotal')); add(spec('global', 'leja', 2, 1, 4, 'qpcurved', aniso=1)); add(spec('global', 'min-delta', 3, 1, 2, limits=1))
         for rule in SEQUENCE_RULES: add(spec('sequence', rule, 2, 1, 4)); add(spec('sequence', rule, 1, 1, 6, transform=1))
         add(spec('sequence', 'rleja', 2, 1, 6, 'level', aniso=3)); add(spec('sequence', 'leja', 2, 1, 4, limits=1)); add(spec('global', 'clenshaw-curtis', 2, 1, 4, 'level', aniso=3)); add(spec('sequence', 'min-delta', 3, 1, 5, 'qptotal', aniso=3))   # directions of very different depth
